@@ -27,6 +27,26 @@ def _eq(a, b, rel=1e-12):
 
 
 def check(tr):
+    out = _check(tr)
+    # a carriage return inside a delivered string value (the table on disk is written and read by pandas, which does
+    # not quote a bare CR on writing and treats it as a line end on reading): tagged, see the known findings
+    cr = any(_has_cr(e.get("result")) for e in tr.events if e["k"] == "cb.result")
+    for v in out:
+        v["keys"]["cr_string"] = cr
+    return out
+
+
+def _has_cr(x):
+    if isinstance(x, str):
+        return "\r" in x
+    if isinstance(x, dict):
+        return any(_has_cr(k) or _has_cr(v) for k, v in x.items())
+    if isinstance(x, (list, tuple)):
+        return any(_has_cr(v) for v in x)
+    return False
+
+
+def _check(tr):
     out = []
     fin = tr.hist.final
     rows = fin.get("rows")
